@@ -16,6 +16,11 @@ var tokenPool = func() []string {
 		"--c\n", "/*c*/", "#c\n", "'", "\"", "`", "\\", "$", "!", "|", "é", "\x00", "\xff",
 		// Unicode class representatives: decimal digits of other scripts, letters, spaces, look-alike punctuation
 		"٣", "५", "５", "٣a", "a٣", "中", "ı", "ſ", "\u00a0", "\u2212", "\u2018q\u2019", "\u201cq\u201d", "\ufeff", "€", "x'41€'", "'\\x中'",
+		// numeric extremes: overflow to ±Inf, underflow, hundreds of digits, huge hex / binary
+		"1e999", "-1e999", "1e-999", "1e999::Float64", "0x" + strings.Repeat("F", 256), "0x1" + strings.Repeat("0", 256), strings.Repeat("9", 400), "0b" + strings.Repeat("1", 100), "0." + strings.Repeat("0", 400) + "1",
+		// tokens whose length sits at typical scratch-buffer sizes, ending in a multi-byte character
+		strings.Repeat("a", 61) + "é", strings.Repeat("a", 62) + "é", strings.Repeat("a", 63) + "é", strings.Repeat("a", 63) + "中", strings.Repeat("a", 127) + "é", strings.Repeat("a", 255) + "é", strings.Repeat("a", 1023) + "中",
+		"'" + strings.Repeat("s", 255) + "é'", "'" + strings.Repeat("s", 254) + "中z'", "`" + strings.Repeat("q", 63) + "é`", "'" + strings.Repeat("s", 4095) + "é'",
 		// string literals whose CONTENT is parsed again somewhere (interval strings, kql pipelines, formats, regexps)
 		"'1 day'", "'1 SQL_TSI_'", "'2 SQL_TSI_HOUR'", "'1'", "' '", "'%Y-%m'", "'T | filter a == \\''", "'T | project a'", "'a.*'", "'\\''", "'\\\\'"}
 	for s := range token.Keywords {
